@@ -108,6 +108,17 @@ Example ex_text :
    34; 111; 34; 58; 123; 34; 113; 34; 58; 123; 34; 107; 34; 58; 110; 117; 108; 108; 125; 125; 125].
 Proof. vm_compute. reflexivity. Qed.
 
+(* the block string of the example meets the hypotheses of c15_block_value_agrees *)
+Example ex_block_hyps :
+  let raw := [10; 32; 32; 120; 10; 32; 32; 32; 32; 121; 13; 10; 32; 32] in
+  has_escaped_triple raw = false /\ rescan_exact raw = true /\ blank_only raw = false /\ go_block_lexable raw = true.
+Proof. repeat split; vm_compute; reflexivity. Qed.
+
+(* default value example: query($v0: T = {s: `d`, n: [1.0e3]}) with v0 omitted *)
+Definition ex_default : value := VObj [([115], VStr [100] false); ([110], VList [VFloat [49; 46; 48; 101; 51]])].
+Example ex_default_hyps : vars_framed [] [] /\ var_get v0 [] = None /\ lit_valid ex_default /\ go_safe_b ex_default = true.
+Proof. split; [intros n; reflexivity|]. repeat split; vm_compute; reflexivity. Qed.
+
 (* forwarding example: upstream a <- client b (null), upstream b <- client a (omitted) *)
 Definition na : name := [97].
 Definition nb : name := [98].
